@@ -307,7 +307,7 @@ func (r *c13Ref) inOrder(seq []c13Msg) {
 // other the way the implementation permits with several write workers: the writes of one notification keep
 // their order and happen after the control message that precedes it; START is a barrier (it waits for the
 // writers in flight), END is executed at its place in the channel order but does not wait.
-func c13Possible(u *Universe, validate bool, seq []c13Msg, limit int) map[string]bool {
+func c13Possible(u *Universe, validate bool, seq []c13Msg, limit int) (map[string]bool, bool) {
 	type notif struct {
 		dels      []c13WOp // in order
 		upds      []c13WOp // storeSyncMsg takes them from a map: any order, after the deletes
@@ -342,10 +342,12 @@ func c13Possible(u *Universe, validate bool, seq []c13Msg, limit int) map[string
 	}
 	res := map[string]bool{}
 	seen := map[string]bool{}
+	truncated := false
 	finished := func(n *notif, dp int, mask uint) bool { return dp == len(n.dels) && mask == (uint(1)<<len(n.upds))-1 }
 	var rec func(r *c13Ref, ctl int, dpos []int, masks []uint)
 	rec = func(r *c13Ref, ctl int, dpos []int, masks []uint) {
-		if len(res) >= limit || len(seen) >= 50*limit {
+		if len(res) >= limit || len(seen) >= 20*limit {
+			truncated = true
 			return
 		}
 		k := fmt.Sprintf("%d %v %v %d %v %s", ctl, dpos, masks, r.cycle, r.inCycle, r.stampKey())
@@ -408,7 +410,7 @@ func c13Possible(u *Universe, validate bool, seq []c13Msg, limit int) map[string
 		}
 	}
 	rec(newC13Ref(u, validate), 0, make([]int, len(ns)), make([]uint, len(ns)))
-	return res
+	return res, !truncated
 }
 
 func (r *c13Ref) stampKey() string {
@@ -448,11 +450,14 @@ func c13Scenario(u *Universe, seq []string, workers int64, validate bool) verifr
 		return refCache
 	}
 	var possCache map[string]bool
-	possible := func() map[string]bool {
+	possComplete := true
+	// possible reports whether the content is reachable by overtaking; if the enumeration had to be cut short the
+	// answer is "cannot be excluded" (attributed to the recorded finding rather than raised as an alarm)
+	possible := func(key string) bool {
 		if possCache == nil {
-			possCache = c13Possible(u, validate, msgs, 200000)
+			possCache, possComplete = c13Possible(u, validate, msgs, 100000)
 		}
-		return possCache
+		return possCache[key] || !possComplete
 	}
 	return func() ([]*verifrt.EnvEvent, func(), func(*verifrt.Result) (string, []string)) {
 		var w *World
@@ -560,7 +565,7 @@ func c13Scenario(u *Universe, seq []string, workers int64, validate bool) verifr
 			}
 			// with several write workers: is the difference explained by notifications overtaking each other?
 			pre := ""
-			if workers > 1 && got.key() != ref.key() && possible()[got.key()] {
+			if workers > 1 && got.key() != ref.key() && possible(got.key()) {
 				pre = "overtaken-"
 			}
 			if len(stale) > 0 {
